@@ -260,8 +260,24 @@ def sha(x):
     return hashlib.sha1(canonical(x).encode()).hexdigest()
 
 
-def shrink(prop, case, scratch, seed, rounds=6, batch=40):
-    """Greedy structural shrinking: keep a smaller candidate while it still disagrees / fails."""
+def fail_signature(prop, case, ob):
+    """Why a case fails, coarsely: a smaller candidate is only accepted as a reduction if it fails in the same way (a candidate that
+    became an invalid input and is rejected by the constructors 'fails' too, but is a different input)."""
+    if hasattr(prop, "failure_signature"):
+        return prop.failure_signature(case, ob)
+    if isinstance(ob, dict):
+        if ob.get("harness_fail"):
+            return ("died",)
+        if ob.get("pred_fail"):
+            return ("pred", re.sub(r"[0-9]+|/\S*|'[^']*'", "#", str(ob["pred_fail"]))[:60])
+        return ("disagree", "error" in ob, "refused" in ob)
+    if isinstance(ob, list):
+        return ("disagree", any(isinstance(x, dict) and "error" in x for x in ob), any(isinstance(x, str) and x.startswith("rejected") for x in ob))
+    return ("disagree",)
+
+
+def shrink(prop, case, scratch, seed, rounds=6, batch=40, sig=None):
+    """Greedy structural shrinking: keep a smaller candidate while it still disagrees / fails in the same way."""
     if not hasattr(prop, "shrink"):
         return case
     cur = case
@@ -285,6 +301,7 @@ def shrink(prop, case, scratch, seed, rounds=6, batch=40):
             bad = failing_indices(prop, cands, obs, scratch, tag="shr")
         except Exception:  # a candidate the pipeline cannot process is simply not a reduction
             break
+        bad = [i for i in bad if sig is None or fail_signature(prop, cands[i], obs[i]) == sig]
         if not bad:
             break
         cur = cands[bad[0]]
@@ -441,7 +458,7 @@ def run(prop, args, seed, scratch, t0):
         if reported >= 3:
             reported += 1
             continue
-        small = cases[i] if args.replay else shrink(prop, cases[i], scratch, seed)
+        small = cases[i] if args.replay else shrink(prop, cases[i], scratch, seed, sig=fail_signature(prop, cases[i], obs[i]))
         small_obs = run_impl_parallel(prop.ID, [small], scratch)[0]
         model_txt = None
         if hasattr(prop, "model_eval") and not (isinstance(small_obs, dict) and small_obs.get("harness_fail")):
